@@ -24,6 +24,7 @@ Spec == Init /\ [][Next]_<<script, more>>
 InvExit == ExitZeroIffAllGood(script, more)
 InvOrder == StdoutInOrder(script, more)
 InvAll == MorePrintsAll(script)
+InvShown == more => ShownAsArrived(script, more)
 EmitCase == Emit => PrintT(<<"REPLAY", ToJson([script |-> script, more |-> more, obs |-> Observe(script, more)])>>)
 EmitForms == (Emit /\ script = <<>> /\ ~more) => PrintT(<<"REPLAY", ToJson([forms |-> FormList])>>)
 =============================================================================
